@@ -59,6 +59,12 @@ def impl(op, a):
         t.tcp_socket = s
         o = guarded(t.recv)
         return [_val(o), s.stream]
+    if op == "tcp_recv_n":
+        # k successive recv() calls of one transport object on one socket
+        t = transport()
+        s = FakeSock(a[0], a[1])
+        t.tcp_socket = s
+        return [[_val(guarded(t.recv)) for _ in range(a[2])], s.stream]
     return _val(guarded(f))
 
 
@@ -127,6 +133,25 @@ def run(ctx):
     ctx.corr([("tcp_recv", c) for c in rc], impl, "tcp_recv",
              decisive=lambda op, a: all(x >= 1 for x in a[1]))
     ctx.exhaustive.append("every single and double cut position of header+payload for payloads of 0,1,2,5,8,16 bytes")
+    # ---- several messages back to back on one stream, one transport object, k calls (C17_recv_stream_* theorems)
+    rn = []
+    for _ in range(ctx.scale(150, 3000)):
+        n = r.choice([1, 2, 2, 3, 4, 6])
+        parts = []
+        for _ in range(n):
+            l = r.choice([0, 0, 1, 2, 7, 8, 9, 16, 127, 128, 255, 256, 300, r.randrange(0, 2000)])
+            parts.append(bytes([0, 1]) + r.choice([1, 16, 65535]).to_bytes(2, "big") + r.choice([1, 16, 65535]).to_bytes(2, "big")
+                         + l.to_bytes(2, "big") + bytes(r.getrandbits(8) for _ in range(l)))
+        stream = b"".join(parts)
+        mode = r.randrange(4)
+        if mode == 0:      # the stream ends inside the last message: the last call must be an error, the others whole
+            stream = stream[:len(stream) - r.randrange(1, len(parts[-1]) + 1)] if len(parts[-1]) else stream
+        elif mode == 1:    # unread bytes of a further message stay on the socket
+            stream += bytes([0, 1, 0, 1, 0, 16, 0, 9]) + bytes(r.randrange(0, 9))
+        for sch in r.sample(splits(len(stream), r, ctx), 3) + [[1] * r.randrange(0, 40)]:
+            rn.append([stream, sch[:4000], n + (1 if mode == 2 else 0)])
+    ctx.corr([("tcp_recv_n", c) for c in rn], impl, "tcp_recv_n",
+             decisive=lambda op, a: all(x >= 1 for x in a[1]))
     # ---- search against the standard header
     spec = lib.run_model([("spec_std_header", [1, 16, 1, len(p)]) for _, p, _ in msgs])
     for (hdr, payload, nxt), sh in zip(msgs, spec):
